@@ -24,6 +24,7 @@ func (m Mode) String() string {
 	return "BV"
 }
 
+var checkIval = os.Getenv("VERIF_CHECKIVAL") == "1"
 var noRadix = os.Getenv("VERIF_NORADIX") == "1"
 var linDiv = os.Getenv("VERIF_LINDIV") == "1"
 
@@ -275,6 +276,9 @@ func (e *Exec) mkSym(t *Term, w uint8, sg bool, lo, hi int64, bnd bool) Int {
 			if hi > th {
 				hi = th
 			}
+		}
+		if checkIval && t.Name != "" && t.Name[0] != '(' || checkIval && len(t.Name) > 0 {
+			e.checkInterval(t, w, sg, lo, hi)
 		}
 		if lo == hi {
 			return normInt(Int{W: w, Sg: sg, C: lo})
@@ -608,23 +612,22 @@ func (e *Exec) intBinINTplain(op token.Token, x, y Int, tx, ty *Term, xl, xh int
 	w, sg := x.W, x.Sg
 	S := Sort{K: SInt}
 	// base+offset normal form: (b + c1) +/- c2 is rebuilt as b + (c1 +/- c2), collapsing to b when the offsets cancel
-	if (op == token.ADD || op == token.SUB) && xok {
+	if (op == token.ADD || op == token.SUB) && xok && yok {
 		var sym *Term
-		var c int64
+		var c, sl, sh int64
 		switch {
 		case y.S == nil && x.S != nil && (y.Sg || y.C >= 0):
-			sym, c = x.S, y.C
+			sym, c, sl, sh = x.S, y.C, xl, xh
 			if op == token.SUB {
 				c = -c
 			}
 		case x.S == nil && y.S != nil && op == token.ADD && (x.Sg || x.C >= 0):
-			sym, c = y.S, x.C
-			xl, xh = yl, yh
+			sym, c, sl, sh = y.S, x.C, yl, yh
 		}
 		if sym != nil && sym.Base != nil && c > -(1<<40) && c < 1<<40 && sym.Off > -(1<<40) && sym.Off < 1<<40 {
 			off := sym.Off + c
-			l, o1 := addOv(xl, c)
-			h, o2 := addOv(xh, c)
+			l, o1 := addOv(sl, c)
+			h, o2 := addOv(sh, c)
 			if o1 && o2 && inRange(l, h, w, sg) {
 				base := sym.Base
 				if off == 0 {
@@ -636,8 +639,8 @@ func (e *Exec) intBinINTplain(op token.Token, x, y Int, tx, ty *Term, xl, xh int
 				return e.mkSym(t, w, sg, l, h, true)
 			}
 		} else if sym != nil && sym.Base == nil && c != 0 && c > -(1<<40) && c < 1<<40 {
-			l, o1 := addOv(xl, c)
-			h, o2 := addOv(xh, c)
+			l, o1 := addOv(sl, c)
+			h, o2 := addOv(sh, c)
 			if o1 && o2 && inRange(l, h, w, sg) {
 				t := e.def(S, "(+ "+sym.Name+" "+intLit(c)+")")
 				t.Base, t.Off = sym, c
@@ -1380,11 +1383,11 @@ func (e *Exec) radixInsert(r *radix, c int64) bool {
 	f := c / below // old = hi*f + lo, 0 <= lo < f
 	hiT := e.fresh("d", Sort{K: SInt})
 	loT := e.fresh("d", Sort{K: SInt})
-	hi := e.mkSym(hiT, old.W, old.Sg, ol/f, oh/f, true)
-	lo := e.mkSym(loT, old.W, old.Sg, 0, min64(oh, f-1), true)
 	ot := e.intTerm(old)
 	e.sol.Send(fmt.Sprintf("(assert (= %s (+ (* %d %s) %s)))", ot.Name, f, hiT.Name, loT.Name))
 	e.sol.Send(fmt.Sprintf("(assert (and (>= %s 0) (< %s %d) (>= %s %d) (<= %s %d)))", loT.Name, loT.Name, f, hiT.Name, ol/f, hiT.Name, oh/f))
+	hi := e.mkSym(hiT, old.W, old.Sg, ol/f, oh/f, true)
+	lo := e.mkSym(loT, old.W, old.Sg, 0, min64(oh, f-1), true)
 	if hi.S == nil {
 		e.sol.Send(fmt.Sprintf("(assert (= %s %d))", hiT.Name, hi.C))
 	}
@@ -1529,4 +1532,25 @@ func (e *Exec) radixMulConst(x Int, k int64) (Int, bool) {
 		return Int{}, false
 	}
 	return e.radixRange(x.S.Rad, x.S.RadHi, x.S.RadLo, x.S.RadUnit/k, x.W, x.Sg), true
+}
+
+// checkInterval (self-check mode VERIF_CHECKIVAL=1): the solver must agree that the term cannot leave the interval the
+// engine derived for it under the current path condition; a disagreement is an engine bug.
+func (e *Exec) checkInterval(t *Term, w uint8, sg bool, lo, hi int64) {
+	var q string
+	if t.Sort.K == SInt {
+		q = fmt.Sprintf("(or (< %s %s) (> %s %s))", t.Name, intLit(lo), t.Name, intLit(hi))
+	} else if t.Sort.K == SBV {
+		lt, gt := "bvult", "bvugt"
+		if sg {
+			lt, gt = "bvslt", "bvsgt"
+		}
+		q = fmt.Sprintf("(or (%s %s %s) (%s %s %s))", lt, t.Name, bvLit(uint64(lo), t.Sort.W), gt, t.Name, bvLit(uint64(hi), t.Sort.W))
+	} else {
+		return
+	}
+	e.ivalChecks++
+	if r := e.sol.CheckWith(q); r == "sat" {
+		panic(fmt.Sprintf("INTERVAL-SELF-CHECK failed: term %s may leave [%d,%d]", t.Name, lo, hi))
+	}
 }
